@@ -150,6 +150,9 @@ CASES = [
     ("replace string", {"type": "replace_string", "regex": "x", "replacement": "zz"}, R(BASE), R({"sel": {"f": "a", "g|contains": ["zz", "y"]}, "kw": ["k1", "k2"]})),
     ("map string", {"type": "map_string", "mapping": {"a": ["p", "q"]}}, R(BASE), R({"sel": {"f": ["p", "q"], "g|contains": ["x", "y"]}, "kw": ["k1", "k2"]})),
     ("set value", {"type": "set_value", "value": "new", "field_name_conditions": [{"type": "include_fields", "fields": ["f"]}]}, R(BASE), R({"sel": {"f": "new", "g|contains": ["x", "y"]}, "kw": ["k1", "k2"]})),
+    ("set value on values of every type", {"type": "set_value", "value": "new", "field_name_conditions": [{"type": "include_fields", "fields": ["f", "g", "h", "i", "k", "m"]}]},
+     R({"sel": {"f|re": "a.*", "g|cidr": "10.0.0.0/8", "h|gte": 5, "i|exists": True, "j": "keep", "k|windash": "-x", "m|fieldref": "other"}}, "sel"),
+     R({"sel": {"f": "new", "g": "new", "h": "new", "i": "new", "j": "keep", "k": "new", "m": "new"}}, "sel")),
     ("case upper", {"type": "case", "method": "upper"}, R(BASE), R({"sel": {"f": "A", "g|contains": ["X", "Y"]}, "kw": ["K1", "K2"]})),
     ("case lower on case-sensitive values", {"type": "case", "method": "lower"}, R({"sel": {"f|cased": "AbC", "g|cased|endswith": "\\Pw.EXE", "h|cased|contains": ["X*Y", "z"]}}, "not sel"),
      R({"sel": {"f|cased": "abc", "g|cased|endswith": "\\pw.exe", "h|cased|contains": ["x*y", "z"]}}, "not sel")),
